@@ -22,6 +22,7 @@
 #include <atomic>
 #include <limits>
 #include <exception>
+#include <typeinfo>
 #define private public
 #define protected public
 #include <Vector/BLF.h>
@@ -69,8 +70,33 @@ static std::string process(const std::string & line) {
     std::string cmd;
     int c = 0;
     ss >> cmd >> c;
+    if (cmd == "C") {
+        // File::createObject(code): dynamic class (typeid-exact) and carried type code
+        long long code = 0;
+        { std::istringstream s2(line); std::string t; s2 >> t >> code; }
+        ObjectHeaderBase * o = File::createObject(static_cast<ObjectType>(static_cast<uint32_t>(code)));
+        if (!o) return "C ok cls=0 type=-";
+        int idx = -1;
+        for (size_t i = 0; i < class_table_size; i++)
+            if (class_table[i].isobj && class_table[i].from_ohb(o)) idx = class_table[i].idx;
+        std::string r = "C ok cls=" + std::to_string(idx) + " type=" + std::to_string(static_cast<uint32_t>(o->objectType));
+        delete o;
+        return r;
+    }
     const ClassInfo * ci = find_class(c);
     if (!ci) return cmd + " err noclass";
+    if (cmd == "P") {
+        // default-construct in memory pre-filled with a poison byte, dump, destruct
+        int pat = 0;
+        ss >> pat;
+        std::vector<unsigned char> mem(ci->size + 64, static_cast<unsigned char>(pat));
+        void * at = mem.data() + (64 - reinterpret_cast<uintptr_t>(mem.data()) % 64) % 64;
+        void * o = ci->construct_at(at);
+        std::string out = "F ok |";
+        ci->dump(o, out);
+        ci->destruct(o);
+        return out;
+    }
     std::string out;
     void * obj = ci->make();
     try {
